@@ -69,6 +69,13 @@ func process1MapMerge(obj map[string]any, mergeFrom *Document, mergeFromDocs []*
 		return nil, err
 	}
 
+	// Merge a copy: merge embeds and mutates its source, and the referenced
+	// subtree stays part of the document it was looked up in.
+	in, err = deepClone(in)
+	if err != nil {
+		return nil, err
+	}
+
 	next, err := mergeMap(obj, in)
 	if err != nil {
 		return nil, err
@@ -140,6 +147,11 @@ func process1List(obj []any, mergeFrom *Document, mergeFromDocs []*Document, dep
 
 func process1ListMerge(obj []any, mergeFrom *Document, mergeFromDocs []*Document, m any, depth int) ([]any, error) {
 	in, err := get(mergeFrom, mergeFromDocs, m)
+	if err != nil {
+		return nil, err
+	}
+
+	in, err = deepClone(in)
 	if err != nil {
 		return nil, err
 	}
